@@ -127,6 +127,19 @@ def gen_case(seed, tier, idx):
     rnd = mkrnd(seed, "mux", idx)
     cfg = gen_layout(rnd, tier)
     vary_use(mkrnd(seed, "mux-use", idx), cfg)
+    # a third way (random stream of its own): the registers reach the memory map in another order than by
+    # ascending address, and the half-built map is asked (decode_address) about registers it already has
+    ro = mkrnd(seed, "mux-order", idx)
+    if "late" not in cfg and len(cfg["regs"]) > 1 and ro.random() < 0.3:
+        order = list(range(len(cfg["regs"])))
+        if ro.random() < 0.5:
+            order.reverse()
+        else:
+            ro.shuffle(order)
+        cfg["order"] = order
+    if ro.random() < 0.3:
+        # register names that differ only in the type of a part or in where an underscore sits
+        cfg["names"] = "alike"
     kind = ["txn", "txn", "txn", "random", "random"][idx % 5]
     T = rnd.choice([200, 300]) if tier == "quick" else rnd.choice([300, 600])
     case = {"engine": "mux", "kind": kind, "cfg": cfg, "stim": gen_stim(rnd, cfg, T, kind)}
@@ -226,12 +239,32 @@ def build(cfg):
     mm = MemoryMap(addr_width=cfg["aw"], data_width=cfg["dw"])
     regs = []
     mux = None
+
+    def nm(i):
+        if cfg.get("names") != "alike":
+            return (f"r{i}",)
+        k = i // 4
+        return [("b", k), ("b", str(k)), ("c", str(k)), (f"c_{k}",)][i % 4]
     early = len(cfg["regs"]) - cfg.get("late", 0)
-    for i, (s, e, w, rd, wr) in enumerate(cfg["regs"]):
+    order = cfg.get("order")
+    if order:
+        regs = [None] * len(cfg["regs"])
+        probe = None
+        for i in order:
+            s, e, w, rd, wr = cfg["regs"][i]
+            r = Reg(w, ("r" if rd else "") + ("w" if wr else ""))
+            got = mm.add_resource(r, name=nm(i), addr=s, size=e - s)
+            assert got == (s, e), (got, s, e)
+            regs[i] = r
+            if probe is None:
+                # the first register added is looked up once, before the others arrive around it
+                probe = mm.decode_address(s)
+        early = None
+    for i, (s, e, w, rd, wr) in enumerate([] if order else cfg["regs"]):
         if i == early:
             mux = csr.Multiplexer(mm, shadow_overlaps=cfg["ov"])
         r = Reg(w, ("r" if rd else "") + ("w" if wr else ""))
-        got = mm.add_resource(r, name=(f"r{i}",), addr=s, size=e - s)
+        got = mm.add_resource(r, name=nm(i), addr=s, size=e - s)
         assert got == (s, e), (got, s, e)
         regs.append(r)
     if mux is None:
